@@ -56,6 +56,7 @@ func c14Stmts() []string {
 		"SELECT k FROM t WHERE v >= 's1' AND v <= 's9';",   // 18 range scan over the index of the wide column (several index nodes in the two-page seed)
 		"SELECT k FROM t WHERE v >= 's3' AND v <= 's5z';",  // 19 range scan that starts and ends inside the node chain
 		"SELECT k, v FROM t WHERE k >= 100 AND k <= 200;", // 20 index range scan that returns nothing
+		"UPDATE t SET v = 'x' WHERE k = 2;",               // 21 shrinking update: always relocates (in the two-page seed: from the head page to the tail page)
 	}
 }
 
@@ -125,7 +126,7 @@ func c14Cfg(p c14Params) *WorldCfg {
 				n++
 			}
 			if n < 3 {
-				for _, i := range []int{11, 16, 9, 10, 7, 0, 1, 2, 3, 18} {
+				for _, i := range []int{11, 16, 9, 21, 10, 7, 0, 1, 2, 3, 18} {
 					ops = append(ops, fmt.Sprintf("raw:3:%d", i))
 				}
 			}
@@ -140,7 +141,7 @@ func c14Cfg(p c14Params) *WorldCfg {
 			if w.hist[len(w.hist)-1] == "begin:2" {
 				return []string{"raw:2:1"}
 			}
-			for _, i := range []int{9, 10, 11, 16} {
+			for _, i := range []int{9, 21, 10, 11, 16} {
 				ops = append(ops, fmt.Sprintf("raw:0:%d", i))
 			}
 			ops = append(ops, "commit:2")
